@@ -66,7 +66,7 @@ structure TopK where
 namespace TopK
 
 /-- heap part of `TopK.Insert` once the sketch estimate `f` of the element is known -/
-def admit (k : Nat) (heap : Array HElem) (x : String) (f : Nat) : Array HElem :=
+def offer (k : Nat) (heap : Array HElem) (x : String) (f : Nat) : Array HElem :=
   if heap.size < k ∨ f ≥ (heap.getD 0 ("", 0)).2 then
     let heap := match GoHeap.indexOf heap x with
       | some i => GoHeap.remove heap i
@@ -78,7 +78,7 @@ def admit (k : Nat) (heap : Array HElem) (x : String) (f : Nat) : Array HElem :=
 def insert (t : TopK) (x : String) (pos : List Nat) (c : Nat) : TopK :=
   let sk := t.sketch.update pos c
   let f := sk.count pos
-  { t with sketch := sk, heap := admit t.k t.heap x f }
+  { t with sketch := sk, heap := offer t.k t.heap x f }
 
 /-- order of `Values`: count descending, then element ascending (bytewise) -/
 def valueLt (a b : HElem) : Bool := a.2 > b.2 || (a.2 == b.2 && a.1 < b.1)
@@ -102,7 +102,7 @@ def zadd (z : List HElem) (x : String) (f : Nat) : List HElem :=
   insertSorted zLt (x, f) (z.filter (fun e => e.1 != x))
 
 /-- heap part of `TopKRedis.Insert`: ZCARD, ZRANGE 0 0, (ZSCORE, ZREM), ZADD, ZCARD, ZPOPMIN -/
-def admitRedis (k : Nat) (z : List HElem) (x : String) (f : Nat) : List HElem :=
+def offerRedis (k : Nat) (z : List HElem) (x : String) (f : Nat) : List HElem :=
   if decide (z.length < k) || (match z.head? with | some mn => decide (f ≥ mn.2) | none => false) then
     let z := zadd z x f
     if z.length > k then z.tail else z
